@@ -41,6 +41,49 @@ CLAIMED.update({
  "C05": _chain("C05", "constructively generated rule-conforming chains with repeated principals, attenuating commands, satisfiable policies, valid windows and free irrelevant fields"),
 })
 
+CLAIMED.update({
+ "C11": ("model_checking",
+   "TLA+ spec Policy.tla (matchStatement-shaped evaluation vs order-free four-valued and classical evaluation, selectors parsed and "
+   "resolved by Selector.tla, like by GlobOps.tla) model-checked with TLC for laws L1..L6; every (statement, datum) replayed on "
+   "policy.Match/PartialMatch; L2-L5 re-checked metamorphically on real results; recorded random evaluations validated by TracePolicy.tla",
+   "TLC checks on the whole bounded universe (all comparison/like leaves over 9 selectors and 8-11 literals, and/or of up to 2-3 "
+   "operands, all/any, nested statements; 48-500 data) that the code-shaped left-to-right evaluation equals the order-free reading "
+   "and that L1 (classical reading when everything resolves), L2 (order independence), L3 (monotone and/all), L4, L5, L6 hold; every "
+   "pair is executed on the real matcher through FromIPLD and through the constructors, and the order/monotonicity/concatenation laws "
+   "are re-checked on the real results themselves so the verdict does not depend on the model's choice for nested missing data.",
+   "Trusts TLC, the transcription of the policy language, the Values encoding (floats as halves; NaN/Inf symbolic) and the harness' "
+   "term<->IPLD mapping. Open points (or of zero operands, all/any over a non-list, NaN equality) are not compared."),
+ "C12": ("model_checking",
+   "TLA+ spec Selector.tla (resolver machine shaped like resolve() vs fold of a declarative per-segment step; slice arithmetic vs "
+   "Python positions) model-checked with TLC; every (selector, value) replayed on selector.Parse+Select incl. every prefix and the "
+   "suffix from the real intermediate; recorded random resolutions validated by TraceSelector.tla",
+   "TLC checks for every selector of up to 2 (quick) / 3 (thorough) segments from a 20-segment alphabet on 21 values of every kind "
+   "that the loop-shaped machine computes the fold of the declarative step, is compositional, and that resolveSliceIndices selects "
+   "Python's positions for all lengths<=4 and bounds in -6..6; each case is executed on the real resolver (full selector, every "
+   "prefix, suffix from the real intermediate result), and random deeper cases are judged by the same operators in a trace spec.",
+   "Trusts TLC, the reading of the property for segments applied to 'no value' (they fail like on a wrong kind), and the harness' "
+   "printing of abstract segments as selector text. Optional slice/iterator on an inapplicable kind is an open point and not compared."),
+ "C14": ("model_checking",
+   "TLA+ specs Selector.tla (tokenizer machine + Classify) and Policy.tla (wire form) model-checked with TLC (nothing dropped, "
+   "print-then-parse, FromIPLD/ToIPLD lossless); every text / node replayed on selector.Parse and policy.FromIPLD/ToIPLD/FromDagJson; "
+   "recorded random texts validated by TraceSelector.tla",
+   "TLC checks on every text '.'+w (|w|<=4 quick, <=5 thorough, 11-character alphabet) that the tokenizer drops nothing and that "
+   "printing and re-parsing keeps the segments, and on well-formed plus singly mutated policy nodes that whatever is accepted is "
+   "written back unchanged. Every text is given to the real parser: an accepted text must be spelled completely by its segments and "
+   "re-parse to the same meaning; every node is given to the real reader (IPLD and DAG-JSON) and must round-trip deep-equal; "
+   "constructor-built policies must match identically after a round trip on the whole C11 data table.",
+   "Accept/reject agreement with the parser model is reported as drift only: the property fixes losslessness, not the grammar."),
+ "C15": ("model_checking",
+   "TLA+ spec Command.tla/CommandOps.tla (Parse/Covers/Join machines vs segment-prefix order) model-checked with TLC incl. the order "
+   "axioms over all valid commands; every text, pair and join replayed on pkg/command; recorded random Unicode commands validated by TraceCommand.tla",
+   "TLC checks for every text over {/,a,b,A} up to length 5 (7 thorough) that Parse accepts exactly the valid ones, for every pair of "
+   "valid commands up to length 5 (6) that the HasPrefix+boundary fast path equals the segment-prefix order, reflexivity, antisymmetry, "
+   "transitivity (all triples) and top, and Join/Segments; all cases are executed on the real package and random Unicode commands are "
+   "judged by the declarative operators in a trace spec.",
+   "Trusts TLC and the harness; upper case is modelled by one representative letter in the exhaustive part and by per-rune flags "
+   "computed with unicode.ToLower in traces; title-case letters and invalid UTF-8 are not generated."),
+})
+
 NOT_YET = "check not built yet in this session (work in progress; see DESIGN.md section 3 for the planned model)"
 
 checks, na = [], []
